@@ -1,6 +1,6 @@
 (* C04 theory, part 1: apply_diff_option laws, the one-map-level specification of apply_diff_map
    (generic in the level), and its four instances plus the mappings level. *)
-From FB Require Export C04.Model.
+From FB Require Export C04.Model C04.Text C04.Hyps.
 From Coq Require Import Permutation Arith PeanoNat.
 
 (* ------------------------------------------------------------------ *)
@@ -215,7 +215,7 @@ Record level (K D T : Type) := mkLevel {
   l_tkey : T -> K;
   l_info : D -> action str;
   l_chg : T -> option str -> option str -> res T;
-  l_mk : K -> str -> T;
+  l_mk : K -> str -> res T;
   l_child : D -> T -> res T }.
 Arguments l_keqb {K D T}. Arguments l_dkey {K D T}. Arguments l_tkey {K D T}.
 Arguments l_info {K D T}. Arguments l_chg {K D T}. Arguments l_mk {K D T}. Arguments l_child {K D T}.
@@ -224,7 +224,7 @@ Record level_ok {K D T} (L : level K D T) : Prop := mkLevelOk {
   lo_keqb : keqb_ok (l_keqb L);
   lo_chg : forall t f to t', l_chg L t f to = Ok t' -> l_tkey L t' = l_tkey L t;
   lo_child : forall d t t', l_child L d t = Ok t' -> l_tkey L t' = l_tkey L t;
-  lo_mk : forall k b, l_tkey L (l_mk L k b) = k }.
+  lo_mk : forall k b t, l_mk L k b = Ok t -> l_tkey L t = k }.
 
 Definition apply_map_L {K D T} (L : level K D T) : list D -> list T -> res (list T) :=
   apply_map (l_keqb L) (l_dkey L) (l_tkey L) (l_info L) (l_chg L) (l_mk L) (l_child L).
@@ -245,7 +245,7 @@ Definition entry_apply {K D T} (L : level K D T) (k : K) (od : option D) (ot : o
       end
   | Some d, None =>
       match l_info L d with
-      | AAdd b => do t' <- l_child L d (l_mk L k b); Ok (Some t')
+      | AAdd b => do t0 <- l_mk L k b; do t' <- l_child L d t0; Ok (Some t')
       | _ => Err                                            (* nothing to remove / edit / descend into *)
       end
   end.
@@ -434,12 +434,13 @@ Proof.
     { intros He. exists kd. split; [left; reflexivity|]. rewrite Hdd. exact He. }
     cbn [entry_apply] in Herr.
     destruct (l_info L d) as [|b|a|a b] eqn:Ei; try (apply Herr; reflexivity).
-    destruct (l_child L d (l_mk L kd b)) as [t|] eqn:Ec; cbn [bind] in *; [|apply Herr; reflexivity].
-    assert (Hkt : l_tkey L t = kd) by (rewrite (lo_child L HL _ _ _ Ec); apply (lo_mk L HL)).
+    destruct (l_mk L kd b) as [t0|] eqn:Em; cbn [bind] in *; [|apply Herr; reflexivity].
+    destruct (l_child L d t0) as [t|] eqn:Ec; cbn [bind] in *; [|apply Herr; reflexivity].
+    assert (Hkt : l_tkey L t = kd) by (rewrite (lo_child L HL _ _ _ Ec); apply (lo_mk L HL _ _ _ Em)).
     destruct (apply_pending (l_dkey L) (l_info L) (l_mk L) (l_child L) p) as [r|]; cbn [bind].
     + destruct IH as [I1 I2]. split; [cbn [map]; rewrite Hkt, I1; reflexivity|].
       intros k. destruct (keqb_dec _ HK k kd) as [->|Hne].
-      * rewrite Hdd. cbn [entry_apply]. rewrite Ei, Ec. cbn [bind]. f_equal.
+      * rewrite Hdd. cbn [entry_apply]. rewrite Ei, Em. cbn [bind]. rewrite Ec. cbn [bind]. f_equal.
         unfold tfind. cbn [find_key]. rewrite Hkt, keqb_refl by exact HK. reflexivity.
       * rewrite Hdo by exact Hne. rewrite I2. f_equal.
         unfold tfind. cbn [find_key]. rewrite Hkt, keqb_neq; [reflexivity|exact HK|exact Hne].
@@ -533,10 +534,10 @@ Proof.
   destruct tns as [|i]; [contradiction|]. apply set_nth_S_fname.
 Qed.
 
-Lemma fresh_names_fname n tns k b : n <> O -> tns <> O -> fname (fresh_names n tns (Some k) b) = k.
+Lemma fresh_names_fname n tns k b l : n <> O -> fresh_names n tns (Some k) b = Ok l -> fname l = k.
 Proof.
-  intros Hn Ht. unfold fresh_names. destruct n as [|n']; [contradiction|]. destruct tns as [|i]; [contradiction|].
-  rewrite set_nth_S_fname. reflexivity.
+  intros Hn H. unfold fresh_names in H. rewrite (change_name_fname _ _ _ _ _ H).
+  destruct n as [|n']; [contradiction|]. reflexivity.
 Qed.
 
 Lemma Lparam_ok n tns : level_ok (Lparam n tns).
@@ -545,48 +546,45 @@ Proof.
   - exact N_eqb_ok.
   - intros t f to t' H. unfold chg_param in H. apply bind_ok in H. destruct H as (x & _ & [= <-]). reflexivity.
   - intros d t t' H. unfold apply_param in H. apply bind_ok in H. destruct H as (x & _ & [= <-]). reflexivity.
-  - reflexivity.
+  - intros k b t H. unfold new_param in H. apply bind_ok in H. destruct H as (x & _ & [= <-]). reflexivity.
 Qed.
 
-Lemma Lfield_ok n tns : n <> O -> tns <> O -> level_ok (Lfield n tns).
+Lemma Lfield_ok n tns : n <> O -> level_ok (Lfield n tns).
 Proof.
-  intros Hn Ht. constructor; cbn.
+  intros Hn. constructor; cbn.
   - exact key2_eqb_ok.
   - intros t f to t' H. unfold chg_field in H. apply bind_ok in H. destruct H as (x & Hx & [= <-]).
     unfold fkey. cbn. rewrite (change_name_fname _ _ _ _ _ Hx). reflexivity.
   - intros d t t' H. unfold apply_field in H. apply bind_ok in H. destruct H as (x & _ & [= <-]). reflexivity.
-  - intros [k1 k2] b. unfold fkey, new_field. cbn. rewrite fresh_names_fname by assumption. reflexivity.
+  - intros [k1 k2] b t H. unfold new_field in H. apply bind_ok in H. destruct H as (x & Hx & [= <-]).
+    unfold fkey. cbn. cbn [fst] in Hx. rewrite (fresh_names_fname _ _ _ _ _ Hn Hx). reflexivity.
 Qed.
 
-Lemma Lmeth_ok n tns : n <> O -> tns <> O -> level_ok (Lmeth n tns).
+Lemma Lmeth_ok n tns : n <> O -> level_ok (Lmeth n tns).
 Proof.
-  intros Hn Ht. constructor; cbn.
+  intros Hn. constructor; cbn.
   - exact key2_eqb_ok.
   - intros t f to t' H. unfold chg_meth in H. apply bind_ok in H. destruct H as (x & Hx & [= <-]).
     unfold mkey. cbn. rewrite (change_name_fname _ _ _ _ _ Hx). reflexivity.
   - intros d t t' H. unfold apply_meth in H. apply bind_ok in H. destruct H as (x & _ & H).
     apply bind_ok in H. destruct H as (y & _ & [= <-]). reflexivity.
-  - intros [k1 k2] b. unfold mkey, new_meth. cbn. rewrite fresh_names_fname by assumption. reflexivity.
+  - intros [k1 k2] b t H. unfold new_meth in H. apply bind_ok in H. destruct H as (x & Hx & [= <-]).
+    unfold mkey. cbn. cbn [fst] in Hx. rewrite (fresh_names_fname _ _ _ _ _ Hn Hx). reflexivity.
 Qed.
 
-Lemma Lclass_ok n tns : n <> O -> tns <> O -> level_ok (Lclass n tns).
+Lemma Lclass_ok n tns : n <> O -> level_ok (Lclass n tns).
 Proof.
-  intros Hn Ht. constructor; cbn.
+  intros Hn. constructor; cbn.
   - exact str_eqb_ok.
   - intros t f to t' H. unfold chg_class in H. apply bind_ok in H. destruct H as (x & Hx & [= <-]).
     unfold ckey. cbn. apply (change_name_fname _ _ _ _ _ Hx).
   - intros d t t' H. unfold apply_class in H. apply bind_ok in H. destruct H as (x & _ & H).
     apply bind_ok in H. destruct H as (y & _ & H). apply bind_ok in H. destruct H as (z & _ & [= <-]). reflexivity.
-  - intros k b. unfold ckey, new_class. cbn. apply fresh_names_fname; assumption.
+  - intros k b t H. unfold new_class in H. apply bind_ok in H. destruct H as (x & Hx & [= <-]).
+    unfold ckey. cbn. apply (fresh_names_fname _ _ _ _ _ Hn Hx).
 Qed.
 
 (* well-formed diff trees: pairwise distinct keys per map (the IndexMap invariant) *)
-Definition wf_mdiff (m : mdiff) : bool := nodupb N.eqb (map pd_index (md_params m)).
-Definition wf_cdiff (c : cdiff) : bool :=
-  nodupb key2_eqb (map fdkey (cd_fields c)) && nodupb key2_eqb (map mdkey (cd_methods c))
-  && forallb wf_mdiff (cd_methods c).
-Definition wf_diff (d : mdiffs) : bool :=
-  nodupb str_eqb (map cd_name (d_classes d)) && forallb wf_cdiff (d_classes d).
 
 Lemma nodupb_NoDup {K} (eqb : K -> K -> bool) (H : keqb_ok eqb) (l : list K) :
   nodupb eqb l = true <-> NoDup l.
@@ -664,14 +662,6 @@ Definition field_entry n tns := entry_apply (Lfield n tns).
 Definition meth_entry n tns := entry_apply (Lmeth n tns).
 Definition class_entry n tns := entry_apply (Lclass n tns).
 
-Definition pfind k (l : list param) := find_key N.eqb pkey k l.
-Definition pdfind k (l : list pdiff) := find_key N.eqb pd_index k l.
-Definition ffind k (l : list field) := find_key key2_eqb fkey k l.
-Definition fdfind k (l : list fdiff) := find_key key2_eqb fdkey k l.
-Definition mfind k (l : list meth) := find_key key2_eqb mkey k l.
-Definition mdfind k (l : list mdiff) := find_key key2_eqb mdkey k l.
-Definition cfind k (l : list class) := find_key str_eqb ckey k l.
-Definition cdfind k (l : list cdiff) := find_key str_eqb cd_name k l.
 
 Lemma apply_param_spec d p :
   match apply_param d p with
@@ -709,7 +699,7 @@ Proof.
 Qed.
 
 Theorem apply_class_spec n tns d c :
-  n <> O -> tns <> O -> wf_cdiff d = true ->
+  n <> O -> wf_cdiff d = true ->
   NoDup (map fkey (c_fields c)) -> NoDup (map mkey (c_methods c)) ->
   match apply_class n tns d c with
   | Ok c' => c_names c' = c_names c
@@ -724,13 +714,13 @@ Theorem apply_class_spec n tns d c :
                          /\ meth_entry n tns k (mdfind k (cd_methods d)) (mfind k (c_methods c)) = Err)
   end.
 Proof.
-  intros Hn Ht Hd Hf Hm. unfold wf_cdiff in Hd. rewrite !andb_true_iff in Hd. destruct Hd as ((Hdf & Hdm) & _).
+  intros Hn Hd Hf Hm. unfold wf_cdiff in Hd. rewrite !andb_true_iff in Hd. destruct Hd as ((Hdf & Hdm) & _).
   apply (nodupb_NoDup _ key2_eqb_ok) in Hdf, Hdm.
   unfold apply_class. destruct (doc_apply (cd_doc d) (c_doc c)) as [doc|]; cbn [bind]; [|left; reflexivity].
-  pose proof (apply_map_spec (Lfield n tns) (Lfield_ok n tns Hn Ht) (cd_fields d) (c_fields c) Hdf Hf) as H1.
+  pose proof (apply_map_spec (Lfield n tns) (Lfield_ok n tns Hn) (cd_fields d) (c_fields c) Hdf Hf) as H1.
   change (apply_map_L (Lfield n tns)) with (apply_fields n tns) in H1.
   destruct (apply_fields n tns (cd_fields d) (c_fields c)) as [fs|]; cbn [bind]; [|right; left; exact H1].
-  pose proof (apply_map_spec (Lmeth n tns) (Lmeth_ok n tns Hn Ht) (cd_methods d) (c_methods c) Hdm Hm) as H2.
+  pose proof (apply_map_spec (Lmeth n tns) (Lmeth_ok n tns Hn) (cd_methods d) (c_methods c) Hdm Hm) as H2.
   change (apply_map_L (Lmeth n tns)) with (apply_meths n tns) in H2.
   destruct (apply_meths n tns (cd_methods d) (c_methods c)) as [ms|]; cbn [bind]; [|right; right; exact H2].
   destruct H1 as [H1a H1b], H2 as [H2a H2b]. cbn. repeat split; auto.
@@ -738,7 +728,7 @@ Qed.
 
 (* Theorem 1 (apply_spec), mappings level.  [apply_at tns] is apply_to after the namespace lookup. *)
 Theorem apply_at_spec tns d t :
-  tns <> O -> ms_ns t <> [] -> wf_diff d = true -> NoDup (map ckey (ms_classes t)) ->
+  ms_ns t <> [] -> wf_diff d = true -> NoDup (map ckey (ms_classes t)) ->
   match apply_at tns d t with
   | Ok r => apply_ns tns (d_info d) (ms_ns t) = Ok (ms_ns r)
             /\ doc_apply (d_doc d) (ms_doc t) = Ok (ms_doc r)
@@ -751,13 +741,13 @@ Theorem apply_at_spec tns d t :
                         /\ class_entry (length (ms_ns t)) tns k (cdfind k (d_classes d)) (cfind k (ms_classes t)) = Err
   end.
 Proof.
-  intros Ht Hns Hd Hc. unfold wf_diff in Hd. rewrite andb_true_iff in Hd. destruct Hd as [Hdc _].
+  intros Hns Hd Hc. unfold wf_diff in Hd. rewrite andb_true_iff in Hd. destruct Hd as [Hdc _].
   apply (nodupb_NoDup _ str_eqb_ok) in Hdc.
   assert (Hn : length (ms_ns t) <> O) by (destruct (ms_ns t); [contradiction|discriminate]).
   unfold apply_at. cbv zeta.
   destruct (apply_ns tns (d_info d) (ms_ns t)) as [ns'|]; cbn [bind]; [|left; reflexivity].
   destruct (doc_apply (d_doc d) (ms_doc t)) as [doc|]; cbn [bind]; [|right; left; reflexivity].
-  pose proof (apply_map_spec (Lclass (length (ms_ns t)) tns) (Lclass_ok _ tns Hn Ht) (d_classes d) (ms_classes t) Hdc Hc) as H.
+  pose proof (apply_map_spec (Lclass (length (ms_ns t)) tns) (Lclass_ok _ tns Hn) (d_classes d) (ms_classes t) Hdc Hc) as H.
   change (apply_map_L (Lclass (length (ms_ns t)) tns)) with (apply_classes (length (ms_ns t)) tns) in H.
   destruct (apply_classes (length (ms_ns t)) tns (d_classes d) (ms_classes t)) as [cs|]; cbn [bind].
   - destruct H as [H1 H2]. cbn. repeat split; auto.
@@ -766,22 +756,22 @@ Qed.
 
 (* untouched entries: a key the diff does not mention keeps its whole node *)
 Corollary apply_untouched_class tns d t r k :
-  tns <> O -> ms_ns t <> [] -> wf_diff d = true -> NoDup (map ckey (ms_classes t)) ->
+  ms_ns t <> [] -> wf_diff d = true -> NoDup (map ckey (ms_classes t)) ->
   apply_at tns d t = Ok r -> cdfind k (d_classes d) = None ->
   cfind k (ms_classes r) = cfind k (ms_classes t).
 Proof.
-  intros Ht Hns Hd Hc Hr Hk. pose proof (apply_at_spec tns d t Ht Hns Hd Hc) as H. rewrite Hr in H.
+  intros Hns Hd Hc Hr Hk. pose proof (apply_at_spec tns d t Hns Hd Hc) as H. rewrite Hr in H.
   destruct H as (_ & _ & _ & H). specialize (H k). rewrite Hk in H. cbn in H. congruence.
 Qed.
 
 Corollary apply_untouched_member n tns d c c' :
-  n <> O -> tns <> O -> wf_cdiff d = true ->
+  n <> O -> wf_cdiff d = true ->
   NoDup (map fkey (c_fields c)) -> NoDup (map mkey (c_methods c)) ->
   apply_class n tns d c = Ok c' ->
   (forall k, fdfind k (cd_fields d) = None -> ffind k (c_fields c') = ffind k (c_fields c))
   /\ (forall k, mdfind k (cd_methods d) = None -> mfind k (c_methods c') = mfind k (c_methods c)).
 Proof.
-  intros Hn Ht Hd Hf Hm Hr. pose proof (apply_class_spec n tns d c Hn Ht Hd Hf Hm) as H. rewrite Hr in H.
+  intros Hn Hd Hf Hm Hr. pose proof (apply_class_spec n tns d c Hn Hd Hf Hm) as H. rewrite Hr in H.
   destruct H as (_ & _ & _ & _ & H1 & H2). split; intros k Hk.
   - specialize (H1 k). rewrite Hk in H1. cbn in H1. congruence.
   - specialize (H2 k). rewrite Hk in H2. cbn in H2. congruence.
@@ -799,13 +789,13 @@ Qed.
 (* refusal: Err exactly when the table refuses some key (never a partial result: the functions
    are pure, the only outcomes are Ok of the specified tree or Err) *)
 Corollary apply_at_err_iff tns d t :
-  tns <> O -> ms_ns t <> [] -> wf_diff d = true -> NoDup (map ckey (ms_classes t)) ->
+  ms_ns t <> [] -> wf_diff d = true -> NoDup (map ckey (ms_classes t)) ->
   apply_at tns d t = Err <->
     apply_ns tns (d_info d) (ms_ns t) = Err
     \/ doc_apply (d_doc d) (ms_doc t) = Err
     \/ exists k, class_entry (length (ms_ns t)) tns k (cdfind k (d_classes d)) (cfind k (ms_classes t)) = Err.
 Proof.
-  intros Ht Hns Hd Hc. pose proof (apply_at_spec tns d t Ht Hns Hd Hc) as H.
+  intros Hns Hd Hc. pose proof (apply_at_spec tns d t Hns Hd Hc) as H.
   destruct (apply_at tns d t) as [r|].
   - split; [discriminate|]. destruct H as (H1 & H2 & _ & H3).
     intros [E|[E|(k & E)]]; [congruence|congruence|]. rewrite H3 in E. discriminate.
@@ -823,8 +813,8 @@ Lemma entry_apply_ok_iff {K D T} (L : level K D T) k od ot o :
                          /\ l_chg L t (Some a) None = Ok t1 /\ o = None)
     \/ (exists d t a b t1 t', od = Some d /\ ot = Some t /\ l_info L d = AEdit a b
                               /\ l_chg L t (Some a) (Some b) = Ok t1 /\ l_child L d t1 = Ok t' /\ o = Some t')
-    \/ (exists d b t', od = Some d /\ ot = None /\ l_info L d = AAdd b
-                       /\ l_child L d (l_mk L k b) = Ok t' /\ o = Some t').
+    \/ (exists d b t0 t', od = Some d /\ ot = None /\ l_info L d = AAdd b
+                          /\ l_mk L k b = Ok t0 /\ l_child L d t0 = Ok t' /\ o = Some t').
 Proof.
   split.
   - destruct od as [d|]; [|intros [= <-]; left; auto].
@@ -837,10 +827,10 @@ Proof.
       right; right; right; left. exists d, t, a, t1. repeat split; auto.
     + intros H. apply bind_ok in H. destruct H as (t1 & Hg & H). apply bind_ok in H. destruct H as (t' & Hc & [= <-]).
       right; right; right; right; left. exists d, t, a, b, t1, t'. repeat split; auto.
-    + intros H. apply bind_ok in H. destruct H as (t' & Hc & [= <-]).
-      right; right; right; right; right. exists d, b, t'. repeat split; auto.
+    + intros H. apply bind_ok in H. destruct H as (t0 & Hm & H). apply bind_ok in H. destruct H as (t' & Hc & [= <-]).
+      right; right; right; right; right. exists d, b, t0, t'. repeat split; auto.
   - intros [(-> & ->)|[(d & t & t' & -> & -> & Hi & Hc & ->)|[(d & t & b & t1 & t' & -> & -> & Hi & Hg & Hc & ->)|
             [(d & t & a & t1 & -> & -> & Hi & Hg & ->)|[(d & t & a & b & t1 & t' & -> & -> & Hi & Hg & Hc & ->)|
-            (d & b & t' & -> & -> & Hi & Hc & ->)]]]]]; cbn [entry_apply]; try rewrite Hi; try rewrite Hg; cbn [bind];
+            (d & b & t0 & t' & -> & -> & Hi & Hg & Hc & ->)]]]]]; cbn [entry_apply]; try rewrite Hi; try rewrite Hg; cbn [bind];
       try rewrite Hc; reflexivity.
 Qed.
